@@ -27,7 +27,8 @@ def run_k1(ctx, archs=None, nj=3):
     h = os.path.join(VERIF, 'cbmc', 'l1.c')
     # complete_job with 2 jobs needs ~9 min / 15 GB per query (probe): thorough tier only
     modes = [1, 3] if ctx.quick() else [1, 2, 3, 4]
-    work = [(a, m, False) for a in archs for m in modes] + [(archs[0], 1, True)]
+    # modes 2/4 need ~15 GB each: one architecture only (three at once were OOM-killed on the 62 GB sandbox); modes 1/3 on every architecture
+    work = [(a, m, False) for a in archs for m in modes if m in (1, 3) or a == archs[0]] + [(archs[0], 1, True)]
     if ctx.quick():
         ctx.outside.append('L1 complete_job/complete_burst_job termination+completion (thorough tier only: ~9 min, 15 GB per query)')
 
